@@ -83,6 +83,125 @@ Proof.
 Qed.
 Print Assumptions C17_flow_load.
 
+(* ---- "A response outside the retry conditions ... ends the sequence" ----
+
+   The text of the property has a logical call ended by "failed" AND by a
+   response outside the retry conditions.  In flows mode the code does not do
+   the second: the retry processor is simply not reached, its counter stays in
+   the flow context (finding F-C17b, open).  The full statements, their
+   refutation on the faithful model, and what holds outside the finding.
+   Spec.since_end / Spec.carried: retries of (p, s) in the current call / retries
+   of calls already ended by a non-retryable response that the counter still
+   holds; this is what the harness monitor computes. *)
+
+(* state: after a response of s that reaches no retry processor, no retry
+   processor holds a counter for s *)
+Definition C17_flow_skip_forgets_full : Prop :=
+  forall att evs p s,
+    get fkey_eqb (fst (frun att (evs ++ [FSkip s]))) (p, s) = None.
+
+Theorem C17_flow_skip_forgets_full_refuted : ~ C17_flow_skip_forgets_full.
+Proof.
+  intro H. specialize (H (fun _ => 2) [FExec 0 7] 0 7). vm_compute in H. discriminate H.
+Qed.
+Print Assumptions C17_flow_skip_forgets_full_refuted.
+
+(* exactly: the counter survives the end of the call iff retries were handed
+   out since the latest "failed" (classifier: since_failed (p, s) <> 0) *)
+Theorem C17_flow_skip_forgets_holds_outside_F_C17b : forall att evs p s,
+  let c := since_failed (p, s) (snd (frun att evs)) in
+  get fkey_eqb (fst (frun att (evs ++ [FSkip s]))) (p, s) =
+    (if c =? 0 then None else Some c).
+Proof.
+  intros att evs p s c.
+  destruct (f_kept att evs [FSkip s] (p, s) eq_refl) as [Hg _]. rewrite Hg.
+  apply (finv_run att evs p s).
+Qed.
+Print Assumptions C17_flow_skip_forgets_holds_outside_F_C17b.
+
+(* behaviour: a call following an ended one starts afresh, i.e. "failed" is
+   reported exactly when the retries of THIS call reach the bound *)
+Definition C17_flow_fresh_after_end_full : Prop :=
+  forall att evs p s,
+    let st := fst (frun att evs) in
+    let tr := snd (frun att evs) in
+    snd (fstep att st (FExec p s)) = FFailed <-> since_end (p, s) tr = Z.max 0 (att p).
+
+Theorem C17_flow_fresh_after_end_full_refuted : ~ C17_flow_fresh_after_end_full.
+Proof.
+  intro H. specialize (H (fun _ => 2) [FExec 0 7; FSkip 7; FExec 0 7] 0 7).
+  vm_compute in H. destruct H as [H _]. specialize (H eq_refl). discriminate H.
+Qed.
+Print Assumptions C17_flow_fresh_after_end_full_refuted.
+
+(* what the code does, for every history: the carried retries count against the
+   new call; the counts are non-negative and add up to the stored counter *)
+Theorem C17_flow_next_call : forall att evs p s,
+  let st := fst (frun att evs) in
+  let tr := snd (frun att evs) in
+  let r := fstep att st (FExec p s) in
+  0 <= since_end (p, s) tr /\ 0 <= carried (p, s) tr /\
+  since_failed (p, s) tr = since_end (p, s) tr + carried (p, s) tr /\
+  (snd r = FFailed <-> since_end (p, s) tr + carried (p, s) tr = Z.max 0 (att p)) /\
+  (snd r = FRetry <-> since_end (p, s) tr + carried (p, s) tr < Z.max 0 (att p)).
+Proof.
+  intros att evs p s st tr r.
+  destruct (cc_split (p, s) (snd (frun att evs))) as [H1 [H2 H3]].
+  destruct (f_next_call att evs p s) as [H4 H5].
+  split; [exact H1|]. split; [exact H2|]. split; [exact H3|]. split; [exact H4|exact H5].
+Qed.
+Print Assumptions C17_flow_next_call.
+
+(* outside the finding — nothing carried over (decidable; the monitor's
+   classifier is [carried > 0] at a "failed") — the call starts afresh *)
+Theorem C17_flow_fresh_after_end_holds_outside_F_C17b : forall att evs p s,
+  let st := fst (frun att evs) in
+  let tr := snd (frun att evs) in
+  let r := fstep att st (FExec p s) in
+  carried (p, s) tr = 0 ->
+  (snd r = FFailed <-> since_end (p, s) tr = Z.max 0 (att p)) /\
+  (snd r = FRetry <-> since_end (p, s) tr < Z.max 0 (att p)).
+Proof.
+  intros att evs p s st tr r H0.
+  destruct (f_next_call att evs p s) as [H4 H5]. fold st tr r in H4, H5.
+  rewrite H0, Z.add_0_r in H4, H5. split; assumption.
+Qed.
+Print Assumptions C17_flow_fresh_after_end_holds_outside_F_C17b.
+
+(* and inside it: an early "failed" (before this call used its budget) happens
+   exactly when retries were carried over *)
+Theorem C17_flow_early_failure_iff_carried : forall att evs p s,
+  let st := fst (frun att evs) in
+  let tr := snd (frun att evs) in
+  snd (fstep att st (FExec p s)) = FFailed ->
+  (since_end (p, s) tr < Z.max 0 (att p) <-> 0 < carried (p, s) tr).
+Proof.
+  intros att evs p s st tr Hf.
+  destruct (cc_split (p, s) (snd (frun att evs))) as [H1 [H2 H3]].
+  destruct (f_next_call att evs p s) as [H4 _]. apply H4 in Hf. fold tr in H1, H2, H3, Hf.
+  lia.
+Qed.
+Print Assumptions C17_flow_early_failure_iff_carried.
+
+(* the leak: the counter of (p, s) is kept — same value — through every
+   continuation in which no response of s reaches p, however long *)
+Theorem C17_flow_counter_kept : forall att evs evs2 k,
+  forallb (fun e => negb (f_on k e)) evs2 = true ->
+  get fkey_eqb (fst (frun att (evs ++ evs2))) k = get fkey_eqb (fst (frun att evs)) k.
+Proof. intros att evs evs2 k H. exact (proj1 (f_kept att evs evs2 k H)). Qed.
+Print Assumptions C17_flow_counter_kept.
+
+(* satisfiable side conditions, and the finding's witness: attempts 2;
+   500 -> retry, 200 -> other (call ended, 1 retry carried), 500 -> retry,
+   500 -> failed after ONE retry of the second call *)
+Example C17_flow_carried_example :
+  let tr := snd (frun (fun _ => 2) [FExec 0 7; FSkip 7; FExec 0 7]) in
+  since_end (0, 7) tr = 1 /\ carried (0, 7) tr = 1 /\ since_failed (0, 7) tr = 2 /\
+  carried (0, 8) tr = 0 /\
+  map (fun x => fout_code (snd x))
+      (snd (frun (fun _ => 2) [FExec 0 7; FSkip 7; FExec 0 7; FExec 0 7])) = [0; 2; 0; 1].
+Proof. vm_compute. repeat split; reflexivity. Qed.
+
 Example C17_flow_example :
   map (fun x => fout_code (snd x))
       (snd (frun (fun _ => 2)
@@ -163,6 +282,124 @@ Proof.
   rewrite Hs, H in L. exact L.
 Qed.
 Print Assumptions C17_policy_expiry_only_lowers.
+
+(* ---- "after which it reports failure and forgets the sequence" ---- *)
+
+(* General machine (any lookup may miss, any entry may vanish).  Once the
+   retries of the open call of s reach max(attempts, 0): nothing is stored for
+   s; the next non-opening response of s — any status, found or not — is
+   answered NoOp ("reports failure": the response goes to the client as it is)
+   and every lookup of the store answers as before. *)
+Theorem C17_policy_exhausted_forgets : forall c evs s,
+  seg_retries s (snd (grun c evs)) = Z.max 0 (pAttempts c) ->
+  let st := fst (grun c evs) in
+  get Z.eqb st s = None /\
+  forall status vis,
+    let r := gstep c st (GResp s false status vis) in
+    snd r = [(s, false, status, PNoOp)] /\
+    forall s', get Z.eqb (fst r) s' = get Z.eqb st s'.
+Proof.
+  intros c evs s H st. pose proof (exhausted_none c evs s H) as Hn. fold st in Hn.
+  split; [exact Hn|]. intros status vis r.
+  destruct (gstep_none_later c st s status vis (or_intror Hn)) as [Ho Hk].
+  split; [exact Ho|exact (Hk Hn)].
+Qed.
+Print Assumptions C17_policy_exhausted_forgets.
+
+(* ... and it stays so through EVERY continuation that does not open s again
+   (other sequences, losses, any statuses): no further retry for s, nothing
+   stored for s. *)
+Theorem C17_policy_exhausted_stays_ended : forall c evs evs2 s,
+  seg_retries s (snd (grun c evs)) = Z.max 0 (pAttempts c) ->
+  forallb (no_open s) evs2 = true ->
+  retries s (snd (grun c (evs ++ evs2))) = retries s (snd (grun c evs)) /\
+  get Z.eqb (fst (grun c (evs ++ evs2))) s = None.
+Proof.
+  intros c evs evs2 s H0 H. destruct (exhausted_stays c evs evs2 s H0 H) as [_ [Hg Hr]].
+  split; assumption.
+Qed.
+Print Assumptions C17_policy_exhausted_stays_ended.
+
+(* the same on the timed machine (the one compared with the real plugin and
+   cache): budget used => no entry in the cache map, and the next non-opening
+   response is answered NoOp whatever the clock says *)
+Theorem C17_policy_timed_exhausted_forgets : forall c t0 evs s,
+  seg_retries s (snd (trun c t0 evs)) = Z.max 0 (pAttempts c) ->
+  let t := fst (trun c t0 evs) in
+  get Z.eqb (tStore t) s = None /\
+  forall status, snd (tstep c t (TResp s false status)) = [(s, false, status, PNoOp)].
+Proof.
+  intros c t0 evs s H t. destruct (trun_is_grun c t0 evs) as [gevs [Hg _]].
+  assert (Hn : get Z.eqb (tStore t) s = None).
+  { replace (tStore t) with (fst (grun c gevs)) by (rewrite Hg; reflexivity).
+    apply exhausted_none. rewrite Hg. exact H. }
+  split; [exact Hn|]. intro status. cbn [tstep snd]. rewrite Hn.
+  replace (if t_vis t s then None else None) with (@None (Z * Z)) by (destruct (t_vis t s); reflexivity).
+  destruct (pdecide_none_later c status) as [E|E]; rewrite E; reflexivity.
+Qed.
+Print Assumptions C17_policy_timed_exhausted_forgets.
+
+(* ---- "so a later call reusing the counter starts afresh" + exactness ---- *)
+
+(* An opening response (ID = SequenceID) that meets the conditions and finds
+   nothing for s (entry absent — e.g. after exhaustion or after a non-retryable
+   status, see above — or hidden by the cache) is answered from the FULL
+   configured budget, and as long as the call goes on undisturbed ([calm]: its
+   later responses meet the conditions and see the cache entry, the entry is
+   not lost; other sequences arbitrary) the retries asked are EXACTLY
+   min(number of its responses, max(attempts, 0)): not more and not fewer. *)
+Theorem C17_policy_fresh_start_exact : forall c evs1 evs2 s status vis,
+  in_ranges (pRanges c) status = true ->
+  (vis = false \/ get Z.eqb (fst (grun c evs1)) s = None) ->
+  forallb (calm c s) evs2 = true ->
+  seg_retries s (snd (grun c (evs1 ++ GResp s true status vis :: evs2))) =
+    Z.min (1 + count_resp s evs2) (Z.max 0 (pAttempts c)).
+Proof.
+  intros c evs1 evs2 s status vis Hin Hf Hc.
+  exact (proj1 (exact_run c evs1 evs2 s status vis Hin Hf Hc)).
+Qed.
+Print Assumptions C17_policy_fresh_start_exact.
+
+(* the opening step itself: retry iff attempts >= 1; what is stored is the full
+   budget minus this retry, with the first cool-down multiplied *)
+Theorem C17_policy_fresh_start : forall c st s status vis,
+  in_ranges (pRanges c) status = true ->
+  (vis = false \/ get Z.eqb st s = None) ->
+  let r := gstep c st (GResp s true status vis) in
+  snd r = [(s, true, status, if pAttempts c <? 1 then PNoOp else PRetry)] /\
+  get Z.eqb (fst r) s =
+    (if pAttempts c <? 2 then None else Some (pAttempts c - 1, pCooldown c * pMult c)).
+Proof.
+  intros c st s status vis Hin Hf r.
+  exact (proj2 (exact_open c st [] s status vis Hin Hf)).
+Qed.
+Print Assumptions C17_policy_fresh_start.
+
+(* hypotheses satisfiable: budget 2 used up by sequence 1 (interleaved with
+   sequence 2), later responses NoOp, reopened: again exactly 2 retries.
+   NOT covered by "fresh": an opening response that still FINDS an entry (the
+   previous call neither used its budget nor saw a non-retryable status, e.g.
+   the client gave up) continues on the leftover budget — fewer retries, never
+   more (second part; ids are unique per call in the protocol). *)
+Example C17_policy_fresh_example :
+  let c := {| pAttempts := 2; pCooldown := 5; pMult := 2; pRanges := [(500, 599)] |} in
+  let evs1 := [GResp 1 true 500 true; GResp 2 true 500 true; GResp 1 false 503 true;
+               GResp 1 false 500 true] in
+  seg_retries 1 (snd (grun c evs1)) = Z.max 0 (pAttempts c) /\
+  get Z.eqb (fst (grun c evs1)) 1 = None /\
+  forallb (calm c 1) [GResp 2 false 200 true; GResp 1 false 500 true; GDrop 2;
+                      GResp 1 false 599 true] = true /\
+  map (fun x => pout_code (snd x))
+      (snd (grun c (evs1 ++ GResp 1 true 500 true ::
+                    [GResp 2 false 200 true; GResp 1 false 500 true; GDrop 2;
+                     GResp 1 false 599 true])))
+  = [0; 0; 0; 1; 0; 1; 0; 1]
+  /\
+  map (fun x => pout_code (snd x))
+      (snd (grun {| pAttempts := 3; pCooldown := 0; pMult := 1; pRanges := [(500, 599)] |}
+                 [GResp 1 true 500 true; GResp 1 true 500 true; GResp 1 false 500 true;
+                  GResp 1 false 500 true])) = [0; 0; 0; 1].
+Proof. vm_compute. repeat split; reflexivity. Qed.
 
 (* Without that proviso the total can be higher (a re-opened id gets a fresh
    budget after a loss) — the per-opening bound above still holds. *)
